@@ -18,7 +18,7 @@ ASSUMPTIONS = ["Score defines __eq__ without __hash__ and is unhashable: the has
 
 def mutate_note(rng, n):
     m = dict(n)
-    f = rng.choice(["kind", "val", "oct", "dur", "mode", "acc", "amp", "tags", "same", "same"])
+    f = rng.choice(["kind", "val", "oct", "dur", "dur_near", "mode", "acc", "amp", "tags", "same", "same"])
     if f == "kind" and n["kind"] not in "rl":
         m["kind"] = rng.choice([k for k in "shcba" if k != n["kind"]]); m.pop("acc", None)
         if m["kind"] == "a": m.pop("dir", None)
@@ -28,6 +28,10 @@ def mutate_note(rng, n):
         m["oct"] = n["oct"] + 1
     elif f == "dur":
         m["dur"] = F(n["dur"]) * 2
+    elif f == "dur_near":
+        # a duration less than 1/1000 of a quarter away, itself stored exactly (denominator <= 1000): 1/3 vs 333/1000, 1/2 vs 499/999 ...
+        d = (F(n["dur"]) + rng.choice([1, -1]) * F(rng.choice([4, 5, 6, 7, 8, 9]), 10000)).limit_denominator(1000)
+        m["dur"] = d if d > 0 and d != F(n["dur"]) else F(n["dur"]) * 2
     elif f == "mode" and n["kind"] in "sh":
         m["mode"] = rng.choice([x for x in MODES if x != n.get("mode")])
     elif f == "acc" and n["kind"] == "s" and not n.get("dir"):
@@ -409,7 +413,16 @@ class BuiltEq(Stream):
 
     def gen(self, rng, n):
         for _ in range(n):
-            yield {"notes": [[rng.choice(BASES), rand_steps(rng)] for _ in range(rng.randrange(1, 4))]}
+            case = {"notes": [[rng.choice(BASES), rand_steps(rng)] for _ in range(rng.randrange(1, 4))]}
+            if rng.random() < 0.5:
+                # a chord written with the figure syntax chord['...']: the modifiers in any order, several removals included
+                from musiclang.write import library as wl
+                mods = (["(%s)" % x for x in rng.sample(sorted(wl.DICT_REPLACEMENT), rng.choice([0, 0, 1]))] +
+                        ["[%s]" % x for x in rng.sample(sorted(wl.DICT_ADDITION), rng.choice([0, 0, 1, 2]))] +
+                        ["{%s}" % x for x in rng.sample(sorted(wl.DICT_REMOVAL), rng.choice([0, 1, 2, 2, 3]))])
+                rng.shuffle(mods)
+                case["figure"] = [rng.choice(["I", "II", "IV", "V", "VII"]), rng.choice(["", "6", "64", "7", "65", "2", "9", "11", "13"]) + "".join(mods)]
+            yield case
 
     def impl(self, case):
         from musiclang import Melody
@@ -446,6 +459,15 @@ class BuiltEq(Stream):
                         except TypeError:
                             ok = False                     # equal objects must have equal hashes: a chord that compares but cannot be hashed has none
                         if not ok: out.setdefault("chord", "copy-hash-differs:custom-chord")
+            if case.get("figure"):
+                try:
+                    fc = (getattr(lib, case["figure"][0]) % lib.II.m)(piano__0=mel)[case["figure"][1]]       # the figure is the last thing written
+                except Exception:
+                    fc = None                              # a figure the library rejects builds nothing to compare
+                if fc is not None:
+                    for other, how in ((fc.copy(), "copy"), (copy.deepcopy(fc), "deepcopy"), (fc.o(1).o(-1), "o(1).o(-1)"), ((fc + fc).copy().chords[0], "Score.copy")):
+                        if not (fc == other and other == fc): out.setdefault("chord", f"{how}-not-equal:figure-syntax")
+                        elif not (hash(fc) == hash(other) and other in {fc}): out.setdefault("chord", f"{how}-hash-differs:figure-syntax")
             for nm, objs in (("note", notes), ("melody", [mel]), ("chord", [chord]), ("score", [score])):
                 for x in objs:
                     cp, dc = x.copy(), copy.deepcopy(x)
